@@ -18,7 +18,10 @@ for id in $ids; do
     grep -q "cddl_derive\|cddl-derive" OUT/meta.json OUT/seed_demo.rs 2>/dev/null && [ "$id" = C17 ] && { demo=cddl-derive/tests/seed_demo.rs; pkgflag="-p cddl-derive"; }
     mkdir -p $(dirname $demo); cp OUT/seed_demo.rs $demo
   fi
-  suite=$(cargo nextest run --workspace --no-fail-fast --offline --test-threads 12 -E 'not binary(seed_demo)' 2>&1 | grep -E "Summary" | head -1)
+  cargo nextest run --workspace --no-fail-fast --offline --test-threads 12 -E 'not binary(seed_demo)' > /tmp/seedv.$id.suite.log 2>&1
+  suite=$(grep -E "Summary" /tmp/seedv.$id.suite.log | head -1)
+  [ -z "$suite" ] && suite="NO-SUMMARY: $(grep -E "^error" /tmp/seedv.$id.suite.log | head -3 | tr '\n' ' ')"
+  grep -E "^\s+FAIL" /tmp/seedv.$id.suite.log | sort -u | head -5
   if [ -f OUT/demo.sh ]; then
     sh OUT/demo.sh >/dev/null 2>&1; with=$?
     git apply -R OUT/patch.diff
